@@ -198,7 +198,7 @@ def run_scaled_case(item):
     base = series[1]
     for k, s in zip((0.001, 64.0), (series[0], series[2])):
         for i, (x, y) in enumerate(zip(base, s)):
-            if abs(x - y) > 1e-9 * max(1.0, abs(x)):
+            if not (abs(x - y) <= 1e-9 * max(1.0, abs(x))):
                 viols.append({"rule": "scale_invariance", "expected": {"i": i, "price_at_capital_x1": x}, "observed": {"factor": k, "price": y}})
                 break
     moved = sum(1 for x in base if abs(x - 100.0) > 1e-9)
